@@ -75,6 +75,10 @@ func init() {
 		"strconv.FormatInt":  scFormatInt,
 		"strconv.FormatBool": nil,
 
+		// spf13/cast looks through pointers with reflect (Type.Implements); Inv-values are never
+		// pointers, so both helpers are the identity on them.
+		"github.com/spf13/cast.indirect":                  castIndirect,
+		"github.com/spf13/cast.indirectToStringerOrError": castIndirect,
 		"(*sync.Pool).Get":        poolGet,
 		"(*sync.Pool).Put":        poolPut,
 		"(*sync.Mutex).Lock":      noop,
@@ -98,6 +102,15 @@ func init() {
 			delete(libIntrinsics, k)
 		}
 	}
+}
+
+func castIndirect(i *interpreter, fr *frame, a []value) (value, bool) {
+	if f, ok := a[0].(iface); ok {
+		if _, isPtr := f.v.(*value); isPtr {
+			panic(pathAbort{"unsupported: cast.indirect on a pointer"})
+		}
+	}
+	return a[0], true
 }
 
 func noop(i *interpreter, fr *frame, a []value) (value, bool) { return nil, true }
